@@ -13,6 +13,9 @@ fn main() {
         }
         return;
     }
+    if args.first().map(|s| s.as_str()) == Some("c11-dump") && args.len() >= 2 {
+        std::process::exit(vh::props::c11::child_dump(&args[1]));
+    }
     if args.first().map(|s| s.as_str()) == Some("fuzz-replay") && args.len() >= 2 {
         // run the model-free oracles of the fuzz_text target on a saved input
         let data = std::fs::read(&args[1]).unwrap_or_default();
